@@ -43,7 +43,9 @@ def stretched_gates(gates, *, suffix=None, update=False):
 
         if gate.ideal_unitary:
             # Drop the last argument, which is the stretch factor
-            ideal_unitary = lambda *args: gate.ideal_unitary(args[:-1])
+            def ideal_unitary(*args, _parent=gate.ideal_unitary):
+                return _parent(*args[:-1])
+
         else:
             ideal_unitary = None
 
